@@ -1715,5 +1715,6 @@ func (st *accState) emit() string {
 	b.WriteString("].\n")
 	fmt.Fprintf(&b, "Definition role_init_pre : Z := %d.\nDefinition role_sigclose : Z := %d.\nDefinition role_input : Z := %d.\nDefinition role_main : Z := %d.\n",
 		accRoleInitPre, accRoleSigClose, accRoleInput, accRoleMain)
+	b.WriteString(st.emitQueries()) // gen/query.go: channel capacities, channel operations, request-flag protocol
 	return b.String()
 }
